@@ -76,6 +76,9 @@ def pipelines(seed, root):
         ('none-args-silent', ch(src, nn), ['c', 'd', 'e', ('c', 'e')]),
         ('none-args-silent-disk', ch(src, nn, {'k': 'disk', 'names': ['c', 'e'], 'root': 0}), ['c', 'e']),
         ('merge', ch({'k': 'merge', 'parts': [src, src2]}, tr), ['c', 'ids']),
+        # ONE layer object (one set of edge objects) at several places of the graph: in both branches of a Merge, twice in a chain
+        ('merge-shared-transform', {'k': 'merge', 'parts': [ch(src, tr), ch(src2, tr)]}, ['c', 'd', 'a']),
+        ('transform-twice', ch(src, tr, dict(tr, fields={'c': {'args': ['c', 'd']}, 'd': {'args': ['d', '_p']}}), tr), ['c', 'd']),
         # a dataset without entries between two others: the routing table has no row for its branch
         ('merge-empty-middle', ch({'k': 'merge', 'parts': [src, dict(src2, cls='PSE', ids=[]), src2]}, tr), ['c', 'a', 'ids', ('a', 'c')]),
         ('merge-empty-first', ch({'k': 'merge', 'parts': [dict(src2, cls='PSE', ids=[]), src, src2]}), ['a', 'ids']),
@@ -143,6 +146,7 @@ def run_all(seed, in_child=None):
     roots = [os.path.join(scratch, 'disk'), os.path.join(scratch, 'columns')]
     world = SymWorld()
     b = Builder(world, roots=roots)
+    b.object_pool = {}        # equal descriptions of transforms are ONE layer object
     results, problems = {}, []
     try:
         for name, desc, fields in pipelines(seed, scratch):
